@@ -374,6 +374,8 @@ def _e_dyad_form(a, b, backend):
     """
     if bknp.isarray(a) and bknp.isarray(b):
         return bknp.asarray([backend.vec_fn2(x, y, lambda x, y: _e_dyad_form(x, y, backend)) for x,y in zip(a,b)])
+    if is_list(a) and not is_list(b):
+        return backend.kg_asarray([_e_dyad_form(x, b, backend) for x in a])
     return __e_dyad_form(a, b, backend)
 
 def eval_dyad_form(a, b, backend):
